@@ -420,4 +420,4 @@ Definition field_methods : list (string * string * string) := [
   ("writeCSV", "csvOutput", "Reset")
 ].
 Definition run_functions : list string := ["array"; "arrayGet"; "arrayIndex"; "augAssignOp"; "boolean"; "callBuiltin"; "callNative"; "checkContext"; "checkContextNow"; "closeAll"; "compileRegex"; "ensureFields"; "execActions"; "execShell"; "execute"; "executeAll"; "floatToInt"; "flushAll"; "flushOutputAndError"; "flushStream"; "flushWriter"; "fromNative"; "getField"; "getFieldByName"; "getInputScannerFile"; "getInputScannerPipe"; "getOutputStream"; "getSpecial"; "getline"; "inputModeString"; "joinFields"; "lenNewline"; "localArray"; "newError"; "newInCmdStream"; "newInFileStream"; "newOutCmdStream"; "newOutFileStream"; "newOutNullStream"; "newScanner"; "nextLine"; "null"; "num"; "numStr"; "outputModeString"; "parseFmtTypes"; "parseInputMode"; "parseOutputMode"; "peekPeekPop"; "peekPop"; "peekSlice"; "peekTop"; "peekTwo"; "pop"; "popSlice"; "popTwo"; "printArgs"; "printErrorf"; "printLine"; "push"; "pushNulls"; "replaceTop"; "replaceTwo"; "setField"; "setFieldNames"; "setFile"; "setLine"; "setSpecial"; "setVarByName"; "split"; "splitOnFieldSepRegex"; "sprintf"; "str"; "sub"; "substrChars"; "substrLengthChars"; "toNative"; "toString"; "validCSVSeparator"; "validateCSVInputConfig"; "validateCSVOutputConfig"; "waitExitCode"; "writeCSV"; "writeOutput"].
-Definition setExecuteConfig_functions : list string := ["array"; "arrayIndex"; "checkNativeFunc"; "ensureFields"; "initNativeFuncs"; "joinFields"; "lenNewline"; "newError"; "num"; "numStr"; "parseInputMode"; "parseOutputMode"; "setArrayValue"; "setExecuteConfig"; "setSpecial"; "setVarByName"; "splitOnFieldSepRegex"; "str"; "toString"; "validCSVSeparator"; "validNativeType"; "validateCSVInputConfig"; "validateCSVOutputConfig"; "writeCSV"].
+Definition setExecuteConfig_functions : list string := ["array"; "arrayIndex"; "checkNativeFunc"; "ensureFields"; "initNativeFuncs"; "joinFields"; "lenNewline"; "newError"; "num"; "numStr"; "parseInputMode"; "parseOutputMode"; "setArrayValue"; "setExecuteConfig"; "setSpecial"; "setVarByName"; "splitOnFieldSepRegex"; "str"; "toString"; "validCSVSeparator"; "validNativeType"; "validateCSVInputConfig"; "validateCSVOutputConfig"; "writeCSV"; "writeOutput"].
